@@ -70,6 +70,19 @@ def header_id(data, fmt):
     return (struct.unpack(">Q", data[1:9])[0], bytes(data[9:41]))
 
 
+def canon(data, fmt):
+    """share data up to the EOF offset of its own offset table: the SDMF writer does not truncate, so a
+    share written over a longer one keeps unreachable trailing bytes"""
+    try:
+        if fmt == "SDMF":
+            eof = struct.unpack(">Q", data[99:107])[0]
+        else:
+            eof = struct.unpack(">Q", data[115:123])[0]
+    except struct.error:
+        return data
+    return data[:eof] if 123 <= eof <= len(data) else data
+
+
 def flip(data, a, b, rng):
     pos = rng.randrange(a, b)
     return data[:pos] + bytes([data[pos] ^ (1 << rng.randrange(8))]) + data[pos + 1:]
@@ -347,7 +360,7 @@ class World:
         for (sname, sh), d in disk.items():
             hid = header_id(d, self.fmt)
             if self.vid_of(hid) is None:
-                new.setdefault(hid, {})[sh] = d
+                new.setdefault(hid, {})[sh] = canon(d, self.fmt)
         assert len(new) == 1, "expected exactly one new version on disk, got %d" % len(new)
         (hid, shares), = new.items()
         self.vers.append({"seq": hid[0], "roothash": hid[1], "content": content, "signer": "owner", "shares": shares})
@@ -366,7 +379,7 @@ class World:
                 continue
             hid = header_id(d, self.fmt)
             vid = self.vid_of(hid)
-            if vid is not None and self.vers[vid - 1]["shares"].get(sh) == d:
+            if vid is not None and self.vers[vid - 1]["shares"].get(sh) == canon(d, self.fmt):
                 lay[(sname, sh)] = {"v": vid, "cls": "intact", "how": "published"}
             else:
                 lay[(sname, sh)] = {"v": vid or UNKNOWN_VID, "cls": "bodybad", "how": "unidentified"}
@@ -567,7 +580,7 @@ class World:
             # a failed publish may still have written shares signed by the owner: they are genuine versions
             for hid in sorted({header_id(d, self.fmt) for d in self.disk().values()}):
                 if self.vid_of(hid) is None:
-                    shares = {sh: d for (sname, sh), d in self.disk().items() if header_id(d, self.fmt) == hid}
+                    shares = {sh: canon(d, self.fmt) for (sname, sh), d in self.disk().items() if header_id(d, self.fmt) == hid}
                     self.vers.append({"seq": hid[0], "roothash": hid[1], "content": content, "signer": "owner", "shares": shares})
                     self.cid(content)
             self.events.append({"ev": "Publish", "node": kind, "res": "error" if st != "livelock" else "livelock",
@@ -612,7 +625,7 @@ def base_layout(w, vid, rng, servers=None):
 def new_world(g, fg, rng, nver, fmt=None, k=2, n=3):
     fmt = fmt or rng.choice(["SDMF", "MDMF"])
     w = World(g, fg, fmt, rng, k, n)
-    same_len = rng.random() < 0.3
+    same_len = rng.random() < 0.5
     ln = rng.randint(1, 28)
     w.create(w.new_content(ln, ln) if same_len else w.new_content())
     for i in range(nver - 1):
@@ -627,7 +640,8 @@ def mutate_layout(w, rng, classes, newest, allow_crafted=True, allow_dup=True, n
     owner = [i + 1 for i, v in enumerate(w.vers) if v["signer"] == "owner"]
     crafted = [i + 1 for i, v in enumerate(w.vers) if v["signer"] == "other"]
     for _ in range(nmut):
-        what = rng.choice(["tamper", "tamper", "tamper", "older", "older", "delete", "crafted", "dup", "wrongslot", "splice", "extra"])
+        what = rng.choice(["tamper", "tamper", "tamper", "older", "older", "delete", "crafted", "crafted", "dup", "wrongslot",
+                           "wrongslot", "splice", "splice", "extra"])
         slots = sorted(w.lay)
         if what == "tamper" and slots:
             s, sh = rng.choice(slots)
@@ -649,9 +663,13 @@ def mutate_layout(w, rng, classes, newest, allow_crafted=True, allow_dup=True, n
             # plant it on several servers, the first of the permuted list included half of the time
             srvs = list(order)
             rng.shuffle(srvs)
-            if rng.random() < 0.5:
+            if rng.random() < 0.6:
+                # the server that answers first holds nothing but fabricated shares
                 srvs.remove(order[0])
                 srvs.insert(0, order[0])
+                for sh in range(w.n):
+                    if (order[0], sh) in w.lay:
+                        w.delete(order[0], sh)
             cnt = rng.choice([1, 2, 2, 3])
             for i, s in enumerate(srvs[:cnt]):
                 sh = i % w.n if rng.random() < 0.8 else rng.randrange(w.n)
@@ -681,9 +699,17 @@ def mutate_layout(w, rng, classes, newest, allow_crafted=True, allow_dup=True, n
             da, db = w.vers[a - 1]["shares"][sh], w.vers[b - 1]["shares"][sh]
             fa, fb = fields(da, w.fmt), fields(db, w.fmt)
             (a0, a1), (b0, b1) = fa["share_data"], fb["share_data"]
+            (a2, a3), (b2, b3) = fa["bht"], fb["bht"]
             if a1 - a0 == b1 - b0 and a1 > a0 and da[a0:a1] != db[b0:b1]:
                 d = da[:a0] + db[b0:b1] + da[a1:]
-                w.put(rng.choice(order), sh, a, "bodybad", d, "splice_body_of_v%d" % b)
+                how = "splice_body_of_v%d" % b
+                if a3 - a2 == b3 - b2 and rng.random() < 0.7:
+                    # blocks and their block-hash tree of another version, consistent with each other:
+                    # only the share-hash chain up to the signed root hash tells them apart
+                    d = d[:a2] + db[b2:b3] + d[a3:]
+                    how = "splice_body_and_bht_of_v%d" % b
+                # on the servers that are asked first
+                w.put(rng.choice(order[:3]), sh, a, "bodybad", d, how)
         elif what == "extra":
             s = rng.choice(order)
             sh = rng.randrange(w.n)
@@ -713,11 +739,34 @@ def scen_c10(g, fg, rng, idx, thorough):
     classes = {"prefixbad", "softbad", "bodybad", "chainbad", "privbad"}
     if rng.random() < 0.25:
         classes.add("offsbad")
-    base_layout(w, newest, rng)
-    mutate_layout(w, rng, classes, newest)
-    removed = [s for s in w.order if rng.random() < 0.1]
-    if len(removed) >= len(w.order) - 1:
+    pattern = rng.random()
+    if pattern < 0.07 and len(w.order) >= 4:
+        # k intact shares of the newest version on two servers; two other servers serve shares whose
+        # (unsigned) offset table points the reader at the wrong place
+        srvs = list(w.order)
+        rng.shuffle(srvs)
+        w.put(srvs[0], 0, newest)
+        w.put(srvs[1], 1, newest)
+        for s, sh in ((srvs[2], 2), (srvs[3], rng.choice([0, 1]))):
+            t = tampered(w, newest, sh, ["off_share_data"], rng)
+            w.put(s, sh, newest, t[1], t[0], t[2])
         removed = []
+    elif pattern < 0.14:
+        # all shares intact, plus a copy of one share with a damaged block on another server
+        base_layout(w, newest, rng)
+        s0, sh = rng.choice(sorted(w.lay))
+        others = [s for s in w.order if not any(k[0] == s for k in w.lay)]
+        if others:
+            t = tampered(w, newest, sh, ["block", "bht"], rng)
+            if t:
+                w.put(rng.choice(others), sh, newest, t[1], t[0], "dup:" + t[2])
+        removed = []
+    else:
+        base_layout(w, newest, rng)
+        mutate_layout(w, rng, classes, newest)
+        removed = [s for s in w.order if rng.random() < 0.1]
+        if len(removed) >= len(w.order) - 1:
+            removed = []
     w.set_up(removed)
     w.ev_layout()
     for kind in rng.sample(["ro", "ro", "rw", "w"], 2):
